@@ -590,6 +590,8 @@ func (d *D) Describe(ev *core.Evidence, st *core.Stats) {
 	ev.Coverage["faults_injected"] = map[string]int64{"map-order:desc": c["schedule:desc"], "map-order:rot": c["schedule:rot"], "map-order:shuffle": c["schedule:shuffle"],
 		"map-order:single-site-flip": c["schedule:site-flip"], "native-process-runs": c["native_process_runs"], "L2 arrival-time/clock-cost variants": c["l2_timing_pairs"], "CLI in-process repetitions": c["cli_cases"] * 3, "CLI new-process runs": c["cli_native_process_runs"]}
 	ev.Coverage["cli"] = map[string]int64{"cases": c["cli_cases"], "cases_with_svg_output": c["cli_cases_with_svg_output"], "native_process_runs": c["cli_native_process_runs"]}
+	ev.Coverage["probes"] = map[string]int64{"cases_reaching_a_program_dependent_map_site": c["cases_reaching_a_program_dependent_site"], "programs_with_2+_parse_errors": c["programs_with_2+_parse_errors"],
+		"cli_cases_with_svg_output": c["cli_cases_with_svg_output"], "l2_timing_pairs": c["l2_timing_pairs"], "native_process_runs": c["native_process_runs"] + c["cli_native_process_runs"]}
 	ev.Coverage["simulated_time_s"] = float64(c["simulated_ns"]) / 1e9
 	ev.Coverage["steps"] = c["steps"]
 	ev.Coverage["components"] = map[string][]string{"real": {"lexer", "parser", "formatter", "evaluator", "builtins"}, "real in the CLI layer": {"kong, runCmd.Run (--rand-seed, --svg-out), cli.Platform, svg platform; the real binary in fresh processes for a sample"},
